@@ -64,6 +64,8 @@ pub struct Elab<'a> {
     pub counters: BTreeMap<String, usize>,
     pub loop_ctr: usize,
     pub cur_loop: usize,
+    pub unwinding: bool,
+    pub local_ren: Vec<(String, String)>, // (name in the overlay, name in the source now)
     pub used_loops: BTreeSet<usize>,
     pub all_loop_headers: Vec<String>,
     pub brk_ctr: usize,
@@ -214,6 +216,13 @@ impl<'a> Elab<'a> {
     }
 
     fn next_key(&mut self, base: &str) -> String {
+        // keys that start with the name of a local: use the name the overlay knows it by (`local NAME ORD`)
+        let head: String = base.chars().take_while(|c| c.is_alphanumeric() || *c == '_').collect();
+        let base = match self.local_ren.iter().find(|(_, actual)| *actual == head && !head.is_empty()) {
+            Some((overlay, _)) => format!("{}{}", overlay, &base[head.len()..]),
+            None => base.to_string(),
+        };
+        let base = base.as_str();
         let c = self.counters.entry(base.to_string()).or_insert(0);
         let k = format!("{}#{}", base, *c);
         *c += 1;
@@ -301,7 +310,11 @@ impl<'a> Elab<'a> {
                 let mut v = vec![];
                 v.extend(self.ghost_marker("before", &key));
                 v.extend(self.lockinv_marker("rel", field));
-                v.push(parse_quote!(#place.unlock_();));
+                if self.unwinding && self.u.poisonlocks {
+                    v.push(parse_quote!(#place.unlock_unwinding_();));
+                } else {
+                    v.push(parse_quote!(#place.unlock_();));
+                }
                 v.extend(self.ghost_marker("after", &key));
                 v
             }
@@ -331,6 +344,15 @@ impl<'a> Elab<'a> {
                 vec![s]
             }
         }
+    }
+
+    /// the drops that run while a panic (or a cancellation) unwinds: lock guards poison their mutex (`poisonlocks`)
+    fn unwind_drops(&mut self) -> Vec<Stmt> {
+        let was = self.unwinding;
+        self.unwinding = true;
+        let d = self.all_drops();
+        self.unwinding = was;
+        d
     }
 
     /// drops for every live RAII local (reverse declaration order); env unchanged
@@ -600,13 +622,22 @@ impl<'a> Elab<'a> {
             }
             // R1: guard binding
             if let Some(p) = is_lock_unwrap(&init_expr) {
-                if let Some(field) = last_field(p) {
-                    if self.t.mutex_fields.contains(&field) {
+                let mfield = last_field(p).filter(|f| self.t.mutex_fields.contains(f)).or_else(|| path_single_ident(p).filter(|n| self.u.mutexlocals.contains(n)));
+                if let Some(field) = mfield {
+                    {
                         let place = self.fold_expr(p.clone());
                         let kl = self.next_key(&format!("{}.lock", field));
                         let mut stmts = vec![];
                         stmts.extend(self.pt());
                         stmts.extend(self.ghost_marker("before", &kl));
+                        if self.u.poisonlocks {
+                            // `.lock().unwrap()` panics on a poisoned mutex
+                            if !self.ctl {
+                                self.unsupported("lock().unwrap() on a poisonable mutex in a function that cannot unwind", init_expr.span());
+                            }
+                            let drops = self.unwind_drops();
+                            stmts.push(parse_quote!(if #place.is_poisoned() { #(#drops)* return Ctl::Unwind; }));
+                        }
                         stmts.push(parse_quote!(#place.lock_();));
                         stmts.extend(self.lockinv_marker("acq", &field));
                         stmts.extend(self.ghost_marker("after", &kl));
@@ -1033,6 +1064,23 @@ impl<'a> Elab<'a> {
                 }
             }
         }
+        // `X.map(|p| B)` in a unit that declares `resultmap` (every closure-`map` of the unit is on a Result)
+        if method == "map" && m.args.len() == 1 && self.u.resultmap {
+            if let Expr::Closure(cl) = &m.args[0] {
+                if cl.inputs.len() == 1 {
+                    let pat = match &cl.inputs[0] {
+                        Pat::Type(pt) => (*pt.pat).clone(),
+                        other => other.clone(),
+                    };
+                    let recv = self.fold_expr((*m.receiver).clone());
+                    let saved = self.env.clone();
+                    let body = self.fold_expr((*cl.body).clone());
+                    self.env = saved;
+                    let pat = self.fold_pat(pat);
+                    return parse_quote!(match #recv { Ok(#pat) => Ok(#body), Err(__e) => Err(__e) });
+                }
+            }
+        }
         // `X.map(|p| B)` in a unit that declares `optionmap` (every closure-`map` of the unit is on an Option)
         if method == "map" && m.args.len() == 1 && self.u.optionmap {
             if let Expr::Closure(cl) = &m.args[0] {
@@ -1258,6 +1306,12 @@ impl<'a> Elab<'a> {
                 // in the extracted code)
                 if matches!(peel_paren(&c.args[0]), Expr::MethodCall(_) | Expr::Call(_)) {
                     let e = self.fold_expr(c.args[0].clone());
+                    if let Some(dv) = self.u.dropvalue.clone() {
+                        // the destructor of the dropped value is user code (C14): modelled call, with the thread context
+                        let f = ident(&dv);
+                        let b = self.spec.blocking;
+                        return parse_quote!(#f(#e, #b));
+                    }
                     return parse_quote!({ let _ = #e; });
                 }
                 self.unsupported("drop of a non-local", sp);
@@ -1272,8 +1326,24 @@ impl<'a> Elab<'a> {
             // local closure call
             if p.path.segments.len() == 1 && self.u.localcall.contains(&last) {
                 let f = self.fold_expr((*c.func).clone());
-                let args: Vec<Expr> = c.args.into_iter().map(|a| self.fold_expr(a)).collect();
+                let mut args: Vec<Expr> = c.args.into_iter().map(|a| self.fold_expr(a)).collect();
+                if self.u.blockingctx {
+                    let b = self.spec.blocking;
+                    args.push(parse_quote!(#b));
+                }
                 let call: Expr = parse_quote!(#f.call_(#(#args),*));
+                if self.spec.panics.contains(&last) {
+                    // user code that may panic: the call yields Ctl<R>; a panic unwinds this function
+                    if !self.ctl {
+                        self.unsupported("call of a panicking closure in a function that cannot unwind", sp);
+                    }
+                    let call = self.wrap_op(call, &format!("{}.call", last), false);
+                    let drops = self.unwind_drops();
+                    return parse_quote!(match #call {
+                        Ctl::Done(__v) => __v,
+                        Ctl::Unwind => { #(#drops)* return Ctl::Unwind; }
+                    });
+                }
                 return self.wrap_op(call, &format!("{}.call", last), false);
             }
         }
@@ -1543,6 +1613,48 @@ impl<'a> Elab<'a> {
     }
 
     fn do_match(&mut self, m: ExprMatch) -> Expr {
+        // `match X.lock() { Ok(g) => A, Err(e) => B }` on a poisonable mutex: the lock is taken either way; the `Ok` arm runs when
+        // the mutex is not poisoned (g aliases the data), the `Err` arm otherwise (e — after `into_inner()` — aliases the data)
+        if self.u.poisonlocks && m.arms.len() == 2 {
+            if let Expr::MethodCall(l) = peel_paren(&m.expr) {
+                let mfield = last_field(&l.receiver).filter(|f| self.t.mutex_fields.contains(f)).or_else(|| path_single_ident(&l.receiver).filter(|n| self.u.mutexlocals.contains(n)));
+                if l.method == "lock" && l.args.is_empty() && mfield.is_some() {
+                    let field = mfield.unwrap();
+                    let arm_of = |want: &str| -> Option<(String, Expr)> {
+                        m.arms.iter().find_map(|a| match &a.pat {
+                            Pat::TupleStruct(ts) if ts.path.segments.last().unwrap().ident == want && ts.elems.len() == 1 && a.guard.is_none() => {
+                                Self::pat_single_ident(&ts.elems[0]).map(|n| (n, (*a.body).clone()))
+                            }
+                            _ => None,
+                        })
+                    };
+                    if let (Some((gn, ok_body)), Some((en, err_body))) = (arm_of("Ok"), arm_of("Err")) {
+                        let place = self.fold_expr((*l.receiver).clone());
+                        let kl = self.next_key(&format!("{}.lock", field));
+                        let mut stmts: Vec<Stmt> = vec![];
+                        stmts.extend(self.pt());
+                        stmts.extend(self.ghost_marker("before", &kl));
+                        stmts.push(parse_quote!(#place.lock_();));
+                        stmts.extend(self.ghost_marker("after", &kl));
+                        let data: Expr = parse_quote!(#place.data);
+                        let n_alias = self.env.aliases.len();
+                        self.bind_alias(&gn, data.clone());
+                        let a = self.fold_expr(ok_body);
+                        self.env.aliases.truncate(n_alias);
+                        self.bind_alias(&en, data);
+                        let b = self.fold_expr(err_body);
+                        self.env.aliases.truncate(n_alias);
+                        stmts.push(parse_quote!(let __m = if !#place.is_poisoned() { #a } else { #b };));
+                        let ku = self.next_key(&format!("{}.unlock", field));
+                        stmts.extend(self.ghost_marker("before", &ku));
+                        stmts.push(parse_quote!(#place.unlock_();));
+                        stmts.extend(self.ghost_marker("after", &ku));
+                        stmts.push(Stmt::Expr(parse_quote!(__m), None));
+                        return expr_block(stmts);
+                    }
+                }
+            }
+        }
         let acq = find_acquire(&m.expr);
         let scrut = self.fold_temp_scope(*m.expr);
         let mut brs = vec![];
@@ -1846,6 +1958,15 @@ impl<'a> Elab<'a> {
 
     fn do_macro(&mut self, m: ExprMacro) -> Expr {
         let name = path_to_string(&m.mac.path);
+        if name == "__vx_raw" {
+            // replacement text of a lifted closure (`closurecall`): emitted as written
+            return syn::parse2::<Expr>(m.mac.tokens.clone()).expect("__vx_raw");
+        }
+        // `panic!(..)` / `unreachable!(..)` in a function that can unwind: the panic exit
+        if (name == "panic" || name == "unreachable") && self.ctl {
+            let drops = self.unwind_drops();
+            return parse_quote!({ #(#drops)* return Ctl::Unwind; });
+        }
         if name == "matches" {
             // matches!(e, pat) → match e { pat => true, _ => false }
             struct MatchesArgs {
